@@ -300,6 +300,10 @@ impl<'a, T> AtomicArena<'a, T> {
         memory_consistency_assert!(acap == cap || std::mem::size_of::<T>() == 0);
         memory_consistency_assert_eq!(len, 0);
         if let Some(nn_ptr) = NonNull::new(ptr) {
+            // instrumentation point for /verif: a replay harness may stall this thread here,
+            // between the re-check and the publication of the new bucket
+            #[cfg(isographlabs_isograph_verif)]
+            verif_hooks::schedule_point(verif_hooks::BEFORE_BUCKET_PUBLISH);
             self.buckets[a as usize].store(ptr, Ordering::Release);
             drop(lock);
             nn_ptr
@@ -961,5 +965,20 @@ pub mod verif_hooks {
     }
     pub fn bucket_capacity(a: usize) -> usize {
         super::bucket_capacity(a)
+    }
+    /// Schedule points: a harness installs a callback that is invoked with the point's id by
+    /// the thread that reaches it (no callback installed = no effect).
+    pub const BEFORE_BUCKET_PUBLISH: u32 = 1;
+    static SCHEDULE_CALLBACK: std::sync::atomic::AtomicUsize = std::sync::atomic::AtomicUsize::new(0);
+    pub fn set_schedule_callback(f: Option<fn(u32)>) {
+        SCHEDULE_CALLBACK.store(f.map_or(0, |f| f as usize), std::sync::atomic::Ordering::SeqCst);
+    }
+    pub(super) fn schedule_point(id: u32) {
+        let p = SCHEDULE_CALLBACK.load(std::sync::atomic::Ordering::SeqCst);
+        if p != 0 {
+            // SAFETY: only ever stored from a `fn(u32)` in set_schedule_callback
+            let f: fn(u32) = unsafe { std::mem::transmute::<usize, fn(u32)>(p) };
+            f(id);
+        }
     }
 }
